@@ -1,1 +1,5 @@
 import ZCV.Props.C14
+open ZCV.Props.C14
+#print axioms C14_no_equals_refused
+#print axioms C14_empty_component_refused
+#print axioms C14_wellformed_accepted
